@@ -1,4 +1,4 @@
-use crate::base::{Bytes, BytesCow, SourceLocation, eq_case_insensitive};
+use crate::base::{Bytes, BytesCow, SourceLocation};
 use crate::errors::RewritingError;
 use crate::html::escape_double_quotes_only;
 use crate::parser::AttributeBuffer;
@@ -196,8 +196,10 @@ impl<'i> Attributes<'i> {
         map: impl Fn(&Attribute<'_>) -> R,
     ) -> Option<R> {
         let name = Attribute::name_from_string(name.to_ascii_lowercase(), self.encoding).ok()?;
+        // NOTE: the encoded name is not necessarily lowercase byte-wise: in Big5, Shift_JIS, GBK
+        // etc. the trail byte of a character can be in the `A-Z` range, so both sides are folded.
         let check = move |attr: &Attribute<'_>| {
-            if eq_case_insensitive(&attr.name.as_ref(), &name.as_ref()) {
+            if attr.name.as_ref().eq_ignore_ascii_case(&name.as_ref()) {
                 Some(map(attr))
             } else {
                 None
@@ -232,7 +234,7 @@ impl<'i> Attributes<'i> {
         let items = self.as_mut_vec();
         match items
             .iter_mut()
-            .find(|attr| eq_case_insensitive(&attr.name.as_ref(), &name.as_ref()))
+            .find(|attr| attr.name.as_ref().eq_ignore_ascii_case(&name.as_ref()))
         {
             Some(attr) => attr.set_value(value),
             None => {
@@ -255,7 +257,7 @@ impl<'i> Attributes<'i> {
         };
         let items = self.as_mut_vec();
         let len_before = items.len();
-        items.retain(|attr| !eq_case_insensitive(&attr.name.as_ref(), &name.as_ref()));
+        items.retain(|attr| !attr.name.as_ref().eq_ignore_ascii_case(&name.as_ref()));
         len_before != items.len()
     }
 
